@@ -180,6 +180,10 @@ def run_library(stream: bytes, cuts: List[int], as_str: bool, probe: bool) -> Di
 
 
 def check(case: Dict[str, Any]) -> Outcome:
+    if "fuzz" in case:
+        from ..fuzz.job import check_fuzz_case
+
+        return check_fuzz_case(case)
     out = Outcome()
     stream: bytes = case["stream"]
     cuts: List[int] = sorted(case.get("cuts", []))
@@ -382,16 +386,25 @@ def job_long(col: Collector, seed: int, tier: str, shard: int, n: int) -> None:
     hyp_run(col, seed * 1000 + 300 + shard, c(), check, n)
 
 
-JOBS = {"hyp": job_hyp, "exhaustive": job_exhaustive, "long": job_long}
+def job_atheris(col: Collector, seed: int, tier: str, seconds: int, corpus: str) -> None:
+    from ..fuzz.job import run_fuzz_job
+
+    run_fuzz_job(col, "stdio", seconds, seed, corpus)
+
+
+JOBS = {"atheris": job_atheris, "hyp": job_hyp, "exhaustive": job_exhaustive, "long": job_long}
 
 
 def jobs(tier: str):
     if tier == "quick":
         return [("hyp", {"shard": s, "n": 250}) for s in range(8)] + [("exhaustive", {"shard": s, "nshards": 7, "k": 2}) for s in range(7)] + [("long", {"shard": 0, "n": 20})]
     return (
+        (
         [("hyp", {"shard": s, "n": 6000}) for s in range(6)]
         + [("exhaustive", {"shard": s, "nshards": 8, "k": 3}) for s in range(8)]
         + [("long", {"shard": s, "n": 300}) for s in range(2)]
+    )
+        + [("atheris", {"seconds": 150, "corpus": "seeded"}), ("atheris", {"seconds": 150, "corpus": "empty"})]
     )
 
 
